@@ -409,6 +409,19 @@ def gate_matrix():
             out.append(("str", kind, b"a" * n))
         for kind in ("a", "A", "na", "nb"):
             out.append(("bytes", kind, b"\x01" * n))
+    # multi-byte text around the one-byte length boundary: fewer than 256 runes but 256 bytes or more,
+    # and the reverse is impossible; 2-, 3- and 4-byte runes, byte lengths 254..258 and rune counts 255/256
+    for ch in ("é", "Ā", " ", "\U0001F600"):
+        w = len(ch.encode())
+        for nbytes in (254, 255, 256, 257, 258, 300):
+            k, pad = divmod(nbytes, w)
+            for kind in ("s", "y", "z", "ns"):
+                out.append(("str", kind, (ch * k).encode() + b"a" * pad))
+        for nrunes in (255, 256):
+            for kind in ("s", "y"):
+                out.append(("str", kind, (ch * nrunes).encode()))
+    for kind in ("class",):
+        out.append(("class", ("é" * 130).encode(), b"C")); out.append(("class", b"m", ("Ā" * 128).encode()))
     adv = b"".join(G.ALPHABET)
     for kind in ("s", "y", "b", "z"):
         out.append(("str", kind, adv))
